@@ -34,6 +34,8 @@ import (
 	"github.com/idena-network/idena-go/vm/embedded"
 	"github.com/idena-network/idena-go/vm/wasm/testdata"
 
+	dbm "github.com/tendermint/tm-db"
+
 	"verifh/internal/sim"
 	"verifh/internal/tr"
 )
@@ -168,13 +170,27 @@ func boot(w *sim.World) *sim.Node {
 	return n
 }
 
+// relDB lets the driver drop the content of a node's database when the node is no longer needed:
+// the node objects themselves stay reachable from goroutines the node starts and never stops.
+type relDB struct{ dbm.DB }
+
 func cloneNode(n *sim.Node) *sim.Node {
-	c := n.Clone(kProposer)
+	c := n.W.Boot(kProposer, &relDB{sim.CopyDB(n.DB)}, nil)
 	if c.BootErr != nil {
 		panic(c.BootErr)
 	}
 	c.Cfg.IsDebug = true
 	return c
+}
+
+func release(s *State) {
+	if s == nil || s.N == nil {
+		return
+	}
+	if r, ok := s.N.DB.(*relDB); ok {
+		r.DB = nil
+	}
+	s.N = nil
 }
 
 func (x *Exec) emptyBlocks(n *sim.Node, k int) {
@@ -716,6 +732,9 @@ func (x *Exec) run(s *State, kind string, op Op, caseID int, step int) {
 		// the proposer filtered something out: nothing to judge; forget this node's pool by re-cloning
 		x.Stats["filtered"]++
 		s.N = cloneNode(n)
+		if r, ok := n.DB.(*relDB); ok {
+			r.DB = nil
+		}
 		s.Last = nil
 		return
 	}
@@ -930,6 +949,9 @@ func main() {
 				p = x.preset(base, c.W)
 				presets[c.W] = p
 			}
+			for _, old := range stack {
+				release(old)
+			}
 			root := &State{N: cloneNode(p.N), I: p.I.clone()}
 			root.I.Kind = c.C
 			stack = []*State{root}
@@ -937,6 +959,9 @@ func main() {
 		}
 		if shared > len(stack)-1 {
 			shared = len(stack) - 1
+		}
+		for _, old := range stack[shared+1:] {
+			release(old)
 		}
 		stack = stack[:shared+1]
 		keep := -1 // states up to this depth are needed by the next scenario
